@@ -12,7 +12,9 @@ open SSJ
 
 theorem cellToStr_isMissing (reprF : Rat → String) (b : Bool) (x : Cell) :
     (cellToStr reprF b x).isMissing = x.isMissing := by
-  cases x <;> cases b <;> rfl
+  cases x with
+  | other t => simp only [cellToStr]; split_ifs <;> rfl
+  | _ => cases b <;> rfl
 
 theorem cellToStr_missing (reprF : Rat → String) (b : Bool) : cellToStr reprF b .missing = .missing := rfl
 
@@ -22,6 +24,12 @@ theorem cellToStr_int (reprF : Rat → String) (b : Bool) (i : Int) :
 theorem cellToStr_flt (reprF : Rat → String) (b : Bool) (q : Rat) :
     cellToStr reprF b (.flt q) = .str (if b then toString q.floor else reprF q) := by
   cases b <;> rfl
+
+theorem cellToStr_posInf (reprF : Rat → String) (b : Bool) : cellToStr reprF b (.other posInfTag) = .str "inf" := by
+  simp [cellToStr]
+
+theorem cellToStr_negInf (reprF : Rat → String) (b : Bool) : cellToStr reprF b (.other negInfTag) = .str "-inf" := by
+  simp [cellToStr, posInfTag, negInfTag]
 
 theorem cellToStr_str (reprF : Rat → String) (b : Bool) (s : String) : cellToStr reprF b (.str s) = .str s := rfl
 
@@ -69,6 +77,35 @@ theorem presentAllIntegral_iff (c : Column) (hflt : ∀ v ∈ c.values, v.isMiss
     obtain ⟨hv1, hv2⟩ := List.mem_filter.mp hv
     obtain ⟨q, rfl⟩ := hflt v hv1 (by simpa using hv2)
     exact h q hv1
+
+/-- without any assumption on the cells: the test succeeds iff every present cell is an integral finite float (or an
+    int); in particular a column holding `inf` / `-inf` is not integral -/
+theorem presentAllIntegral_iff' (c : Column) :
+    presentAllIntegral c = true ↔
+      ∀ v ∈ c.values, v = .missing ∨ (∃ q, v = .flt q ∧ isIntegral q = true) ∨ ∃ i, v = .int i := by
+  unfold presentAllIntegral
+  rw [List.all_eq_true]
+  constructor
+  · intro h v hv
+    cases v with
+    | missing => exact Or.inl rfl
+    | flt q => exact Or.inr (Or.inl ⟨q, rfl, h (.flt q) (List.mem_filter.mpr ⟨hv, rfl⟩)⟩)
+    | int i => exact Or.inr (Or.inr ⟨i, rfl⟩)
+    | str s => exact absurd (h (.str s) (List.mem_filter.mpr ⟨hv, rfl⟩)) (by simp)
+    | other t => exact absurd (h (.other t) (List.mem_filter.mpr ⟨hv, rfl⟩)) (by simp)
+  · intro h v hv
+    obtain ⟨hv1, hv2⟩ := List.mem_filter.mp hv
+    rcases h v hv1 with rfl | ⟨q, rfl, hq⟩ | ⟨i, rfl⟩
+    · simp [Cell.isMissing] at hv2
+    · exact hq
+    · rfl
+
+/-- a float column holding an infinity (or any other non-numeric cell) is not integral -/
+theorem presentAllIntegral_of_other (c : Column) (t : String) (h : Cell.other t ∈ c.values) :
+    presentAllIntegral c = false := by
+  rw [← Bool.not_eq_true, presentAllIntegral_iff']
+  intro hall
+  rcases hall _ h with h | ⟨q, h, _⟩ | ⟨i, h⟩ <;> cases h
 
 /-- the resulting column `res` is the string conversion of `c` -/
 structure Converted (reprF : Rat → String) (c res : Column) : Prop where
@@ -123,6 +160,15 @@ theorem float_cell_repr (h : Converted reprF c res) (hd : c.dtype = "float")
     (hc : c.values[i]? = some (.flt q)) : res.values[i]? = some (.str (reprF q)) := by
   rw [h.float hd, List.getElem?_map, hc, hall]
   rfl
+
+/-- float column: `inf` becomes the string "inf", `-inf` the string "-inf" (and the other values are printed with
+    `repr`, since the column is then not integral) -/
+theorem float_cell_inf (h : Converted reprF c res) (hd : c.dtype = "float") (i : Nat) :
+    (c.values[i]? = some (.other posInfTag) → res.values[i]? = some (.str "inf")) ∧
+    (c.values[i]? = some (.other negInfTag) → res.values[i]? = some (.str "-inf")) := by
+  constructor <;> intro hc
+  · rw [h.float hd, List.getElem?_map, hc, Option.map_some, cellToStr_posInf]
+  · rw [h.float hd, List.getElem?_map, hc, Option.map_some, cellToStr_negInf]
 
 /-- every cell of a converted numeric column is missing or a string, provided the input cells are
     missing or numeric -/
@@ -242,10 +288,14 @@ theorem seriesToStr_spec (reprF : Rat → String) (c : Column) (inplace : Bool) 
     (c.dtype = "float" → presentAllIntegral c = true →
         ∀ (i : Nat) (q : Rat), c.values[i]? = some (Cell.flt q) → res.values[i]? = some (Cell.str (toString q.floor))) ∧
     (c.dtype = "float" → presentAllIntegral c = false →
-        ∀ (i : Nat) (q : Rat), c.values[i]? = some (Cell.flt q) → res.values[i]? = some (Cell.str (reprF q))) := by
+        ∀ (i : Nat) (q : Rat), c.values[i]? = some (Cell.flt q) → res.values[i]? = some (Cell.str (reprF q))) ∧
+    (c.dtype = "float" → ∀ i : Nat,
+        (c.values[i]? = some (Cell.other posInfTag) → res.values[i]? = some (Cell.str "inf")) ∧
+        (c.values[i]? = some (Cell.other negInfTag) → res.values[i]? = some (Cell.str "-inf"))) := by
   have hc := seriesToStr_converted reprF c inplace res h
   exact ⟨hc.length_eq, fun i hi _ => hc.missing_iff i hi, hc.objStr, fun hd i k => hc.int_cell hd i k,
-    fun hd ha i q => hc.float_cell_integral hd ha i q, fun hd ha i q => hc.float_cell_repr hd ha i q⟩
+    fun hd ha i q => hc.float_cell_integral hd ha i q, fun hd ha i q => hc.float_cell_repr hd ha i q,
+    fun hd i => hc.float_cell_inf hd i⟩
 
 /-- errors of `series_to_str`: only TypeError, exactly for a non-empty column of another dtype -/
 theorem seriesToStr_err_iff (reprF : Rat → String) (c : Column) (inplace : Bool) (e : PyErr) :
@@ -394,10 +444,14 @@ theorem dataframeColumnToStr_spec (reprF : Rat → String) (c : Column) (inplace
     (c.dtype = "float" → presentAllIntegral c = true →
         ∀ (i : Nat) (q : Rat), c.values[i]? = some (Cell.flt q) → res.values[i]? = some (Cell.str (toString q.floor))) ∧
     (c.dtype = "float" → presentAllIntegral c = false →
-        ∀ (i : Nat) (q : Rat), c.values[i]? = some (Cell.flt q) → res.values[i]? = some (Cell.str (reprF q))) := by
+        ∀ (i : Nat) (q : Rat), c.values[i]? = some (Cell.flt q) → res.values[i]? = some (Cell.str (reprF q))) ∧
+    (c.dtype = "float" → ∀ i : Nat,
+        (c.values[i]? = some (Cell.other posInfTag) → res.values[i]? = some (Cell.str "inf")) ∧
+        (c.values[i]? = some (Cell.other negInfTag) → res.values[i]? = some (Cell.str "-inf"))) := by
   have hc := dataframeColumnToStr_converted reprF c inplace returnCol res h
   exact ⟨hc.length_eq, fun i hi _ => hc.missing_iff i hi, hc.objStr, fun hd i k => hc.int_cell hd i k,
-    fun hd ha i q => hc.float_cell_integral hd ha i q, fun hd ha i q => hc.float_cell_repr hd ha i q⟩
+    fun hd ha i q => hc.float_cell_integral hd ha i q, fun hd ha i q => hc.float_cell_repr hd ha i q,
+    fun hd i => hc.float_cell_inf hd i⟩
 
 /-- errors of `dataframe_column_to_str` are AssertionError (both flags) or TypeError -/
 theorem dataframeColumnToStr_err_kind (reprF : Rat → String) (c : Column) (inplace returnCol : Bool)
